@@ -82,7 +82,7 @@ class TupleVal(object):
     self.elts = elts
 
 
-REG_METHOD_PRIMS = {'append': 'list_append', 'pop': 'list_pop', 'create': 'factory_create',
+REG_METHOD_PRIMS = {'append': 'list_append', 'pop': 'list_pop', 'remove': 'list_remove', 'create': 'factory_create',
                     'instantiate': 'factory_instantiate'}
 
 
@@ -291,7 +291,7 @@ class Compiler(object):
     if isinstance(f, tuple) and f[0] == 'regattr':
       _, recv, name = f
       if name in REG_METHOD_PRIMS:
-        dyn = [a for a in args if isinstance(a, (Reg, Const))][:1] if name == 'append' else []
+        dyn = [a for a in args if isinstance(a, (Reg, Const))][:1] if name in ('append', 'remove') else []
         return self.prim(REG_METHOD_PRIMS[name], [recv] + dyn, node.lineno)
       if name == 'get':
         return self.prim('dict_get', [recv, args[0]], node.lineno)
